@@ -35,6 +35,7 @@ type SpecEnv struct {
 	// role: whether the clause under evaluation is going to be assumed or asserted (0: unknown); neg: inside an odd number
 	// of negations; unk: under a connective without polarity (==). Only used to shape bounded existentials (see exists).
 	role int
+	loopOrd int // ordinal of the loop whose invariant is being evaluated (for #r)
 	neg  bool
 	unk  bool
 }
@@ -115,6 +116,17 @@ func (e *SpecEnv) ident(id *ast.Ident) (SV, error) {
 			rt = e.fn.Signature.Results().At(i).Type()
 		}
 		return SV{e.results[i], rt}, nil
+	}
+	if strings.HasPrefix(name, "__rr") {
+		n := e.loopOrd
+		if len(name) > 4 {
+			n, _ = strconv.Atoi(strings.TrimPrefix(name, "__rr"))
+		}
+		x, ok := g.loopRR[n]
+		if !ok {
+			return SV{}, fmt.Errorf("#r: loop %d is not a range loop over a slice", n)
+		}
+		return SV{g.val(x, e.state()), x.Type()}, nil
 	}
 	if strings.HasPrefix(name, "__ri") {
 		n, _ := strconv.Atoi(strings.TrimPrefix(name, "__ri"))
